@@ -7,7 +7,9 @@ Nothing here imports mako at module import time.  A template gets the names with
 
 Crash points.  The render argument `T` is a *list* of probe numbers that are
 still armed.  `P(i, T)` does nothing and returns '' unless `i in T`; then it
-disarms i (one raise per armed probe and render) and raises `Boom(i)`.  The
+disarms i (one raise per armed probe and render) and raises `Boom(i)`; with
+`-i in T` it raises `BoomBase(i)`, a BaseException that no `except Exception`
+(and no `% except Boom`) may catch.  The
 object raised is appended to RAISED so that the harness can check identity.
 
 Decorator protocol: the one documented in doc/build/filtering.rst
@@ -29,12 +31,27 @@ class Boom(Exception):
     pass
 
 
+class BoomBase(BaseException):
+    """second raise kind: a BaseException that is not an Exception (an abort signal like SystemExit / KeyboardInterrupt)
+    whose constructor needs its arguments; armed by the NEGATIVE probe number in T"""
+
+    def __init__(self, i, msg):
+        BaseException.__init__(self, i, msg)
+
+
 def _fire(i, T):
-    if T and i in T:
+    if not T:
+        return
+    if i in T:
         T.remove(i)
         e = Boom(i, "kaboom#%d" % i)
-        RAISED.append(e)
-        raise e
+    elif -i in T:
+        T.remove(-i)
+        e = BoomBase(i, "kaboom#%d" % i)
+    else:
+        return
+    RAISED.append(e)
+    raise e
 
 
 def P(i, T):
